@@ -201,6 +201,15 @@ func goCuratedWorlds() []wWorld {
 	d := wMsg{Head: mh("WrapMap", wField{Name: "foo", Number: 1, Label: 3, Type: 11, TypeName: ".probe.WrapMap.FooEntry"}, of("foo_entry", 2, 0), of("other", 3, 0)), Nested: []wMsg{
 		{Head: wMsgHead{Name: "FooEntry", MapEntry: true, Fields: []wField{f("key", 1), f("value", 2)}, Enums: []wEnum{}, Oneofs: []string{}, Exts: []wField{}}, Nested: []wMsg{}}}}
 	d.Head.Oneofs = []string{"pick"}
-	fl.Msgs = []wMsg{a, b, c, d}
+	// nested types whose names start with a lower-case letter join WITHOUT '_' (Doc.text_block -> DocTextBlock):
+	// members named like them must not be treated as colliding (Doc_TextBlock), also at depth 2
+	inner := wMsg{Head: mh("part", of("kind", 1, 0), of("Kind", 2, 0)), Nested: []wMsg{{Head: mh("kind_"), Nested: []wMsg{}}}}
+	inner.Head.Oneofs = []string{"sel"}
+	inner.Head.Enums = []wEnum{{Name: "kind2d", Values: []wEnumVal{{"K2D_ZERO", 0}}}}
+	e := wMsg{Head: mh("Doc", of("textBlock", 1, 0), of("Kind", 2, 0), of("sha256sum", 3, 0), f("vector3d_point", 4)), Nested: []wMsg{
+		{Head: mh("text_block"), Nested: []wMsg{}}, {Head: mh("sha256Sum"), Nested: []wMsg{}}, inner}}
+	e.Head.Oneofs = []string{"body"}
+	e.Head.Enums = []wEnum{{Name: "kind", Values: []wEnumVal{{"KIND_ZERO", 0}}}}
+	fl.Msgs = []wMsg{a, b, c, d, e}
 	return []wWorld{{Files: []wFile{fl}, Targets: []string{"probe.proto"}}}
 }
